@@ -65,8 +65,16 @@ def gen_inputs(tier, rng):
             segs = b.split('\r')
             segs.insert(rng.randrange(1, len(segs) + 1), rng.choice(['', 'XXX|1', 'PI', 'pid|1', 'ZZZ', 'QRD|1', 'ORO|1', 'ANYHL7SEGMENT|1', 'OBX|1|CE|x||a^b', 'PID' + '|' * 60 + 'x', 'NK1|1|a^b^c^d^e^f^g^h^i^j^k^l^m^n',
                                                                        # names whose upper-case form has another length (defect D37), other non-ASCII names
-                                                                       'Z\u00df1|a', 'Za\u00df|a|b', 'Z\ufb01a|a', 'z\u00df1|a', 'Z\u0131A|1', 'Z\u00e91|a', 'P\u0131D|1', '\u017fid|1']))
-            out.append('\r'.join(segs))
+                                                                       'Z\u00df1|a', 'Za\u00df|a|b', 'Z\ufb01a|a', 'z\u00df1|a', 'Z\u0131A|1', 'Z\u00e91|a', 'P\u0131D|1', '\u017fid|1',
+                                                                       # lines made of white space only (what CR LF line ends leave behind): no segment, no crash (seed C15-i)
+                                                                       ' ', '\t', '\n', ' \t ', '\x0b', '\x0c', '\n']))
+            if rng.random() < .4:
+                # ... in a message whose MSH-9 names no structure: its segments are not grouped, every line reaches the Segment constructor
+                f = segs[0].split('|')
+                if len(f) > 8:
+                    f[8] = rng.choice(['', 'XXX', 'ADT^A01^', 'ADT^A08', 'ZZZ^Z01^ZZZ_Z01'])
+                    segs[0] = '|'.join(f)
+            out.append(('\r\n' if rng.random() < .2 else '\r').join(segs) + rng.choice(['', '', '\r', '\r\n']))
         elif k < 8:
             v = rng.choice(versions)
             g = mg.get(v)
